@@ -2,6 +2,7 @@ package main
 
 import (
 	"fmt"
+	"go/types"
 	"sort"
 
 	"golang.org/x/tools/go/ssa"
@@ -28,6 +29,12 @@ func (e *Engine) lemmaCtx(lem *Lemma) *FnCtx {
 	c := e.newCtx(fn, &fnOpts{}, nil)
 	c.con = nil
 	c.key = "lemma." + lem.Name
+	if len(lem.Using) > 0 {
+		c.using = map[string]bool{}
+		for _, n := range lem.Using {
+			c.using[n] = true
+		}
+	}
 	c.entry = heapState{}
 	c.cur = heapState{}
 	c.heapDecl("ALLOC", "Int")
@@ -37,6 +44,15 @@ func (e *Engine) lemmaCtx(lem *Lemma) *FnCtx {
 // lemmaFormula evaluates requires/ensures/decreases of a lemma with the parameters bound to
 // the given terms (by name).
 func (c *FnCtx) lemmaParts(lem *Lemma, bind map[string]sv) (req []string, ens []string, ensCl []*Clause, dec string, err error) {
+	var uses []string
+	defer func() {
+		if c.key == "lemma."+lem.Name && c.lemmaUsesOnce < 1 {
+			c.lemmaUsesOnce++
+			for _, u := range uses {
+				c.assume(u)
+			}
+		}
+	}()
 	env := &specEnv{c: c, vars: bind, heap: c.cur, old: nil}
 	if p := c.eng.pkgs[lem.Pkg]; p != nil {
 		env.pkg = p.Pkg
@@ -51,6 +67,33 @@ func (c *FnCtx) lemmaParts(lem *Lemma, bind map[string]sv) (req []string, ens []
 				return nil, nil, nil, "", fmt.Errorf("line %d: %v", cl.Line, e2)
 			}
 			req = append(req, t)
+		case "use":
+			// only in the lemma's own proof: an explicit instance of an axiom or of another lemma
+			if c.key != "lemma."+lem.Name {
+				continue
+			}
+			call, ok := cl.E.(*ECall)
+			okName := false
+			if ok {
+				for _, l2 := range c.eng.specs.Lemmas {
+					if l2.Name == call.Fun && l2.Name != lem.Name {
+						okName = true
+					}
+				}
+				for _, ax := range c.eng.specs.Axioms {
+					if ax.Name == call.Fun {
+						okName = true
+					}
+				}
+			}
+			if !okName {
+				return nil, nil, nil, "", fmt.Errorf("line %d: use needs an axiom or lemma application", cl.Line)
+			}
+			t, e2 := env.evalBool(cl.E)
+			if e2 != nil {
+				return nil, nil, nil, "", fmt.Errorf("line %d: %v", cl.Line, e2)
+			}
+			uses = append(uses, t)
 		case "ensures":
 			t, e2 := env.evalBool(cl.E)
 			if e2 != nil {
@@ -92,6 +135,15 @@ func (e *Engine) verifyLemma(lem *Lemma, props []string) *fnResult {
 		n := "lp_" + p.Name
 		c.declare(n, c.sorts.sortOf(ty))
 		bind[p.Name] = sv{n, ty}
+		// parameters range over type-valid values (the lemma is also only used for such values)
+		switch types.Unalias(ty).Underlying().(type) {
+		case *types.Slice:
+			c.assume(app("validSlice", n))
+		case *types.Interface:
+			c.assume(app("validVal", n))
+		case *types.Pointer, *types.Map:
+			c.assume(le("0", n))
+		}
 	}
 	if len(lem.Enum) > 0 {
 		// exhaustive enumeration of finitely many parameter values (complete, not a sample); the
@@ -201,6 +253,7 @@ func (e *Engine) verifyLemma(lem *Lemma, props []string) *fnResult {
 func (c *FnCtx) lemmaAxiom(lem *Lemma) (string, []string, error) {
 	bind := map[string]sv{}
 	var vars [][2]string
+	var guards []string
 	for _, p := range lem.Params {
 		ty, err := c.eng.tryResolveType(c.pkgTypes(), p.Type)
 		if err != nil {
@@ -210,11 +263,20 @@ func (c *FnCtx) lemmaAxiom(lem *Lemma) (string, []string, error) {
 		n := fmt.Sprintf("%s!q%d", p.Name, c.nfresh)
 		vars = append(vars, [2]string{n, c.sorts.sortOf(ty)})
 		bind[p.Name] = sv{n, ty}
+		switch types.Unalias(ty).Underlying().(type) {
+		case *types.Slice:
+			guards = append(guards, app("validSlice", n))
+		case *types.Interface:
+			guards = append(guards, app("validVal", n))
+		case *types.Pointer, *types.Map:
+			guards = append(guards, le("0", n))
+		}
 	}
 	req, ens, _, _, err := c.lemmaParts(lem, bind)
 	if err != nil {
 		return "", nil, err
 	}
+	req = append(guards, req...)
 	env := &specEnv{c: c, vars: bind, heap: c.cur}
 	if p := c.eng.pkgs[lem.Pkg]; p != nil {
 		env.pkg = p.Pkg
